@@ -46,12 +46,13 @@ static void pull_feed(int mode, long k)
 	/* mode 0: k octets; 1: until end of current frame; 2: until idle */
 	uint8_t ch;
 	long n = 0;
-	static uint8_t obuf[1 << 20];
+	static uint8_t obuf[1 << 23];
+	int truncated = 0;
 	long on = 0;
 	while (1) {
 		if (mode == 0 && n >= k) break;
 		if (!sercomm_drv_pull(&ch)) break;
-		if (on < (long)sizeof(obuf)) obuf[on++] = ch;
+		if (on < (long)sizeof(obuf)) obuf[on++] = ch; else truncated = 1;
 		n++;
 		/* print what was pulled before the receiver may print a delivery */
 		sercomm_drv_rx_char(ch);
@@ -59,6 +60,7 @@ static void pull_feed(int mode, long k)
 	}
 	/* deliveries were printed inline; the pulled octets are reported afterwards with their count, the Python
 	 * side reconstructs positions from the frame structure */
+	if (truncated) { printf("HARNESS-OVERFLOW\n"); return; }   /* a limit of this driver, never a property violation */
 	printf("p ");
 	if (!on) printf("-");
 	for (long i = 0; i < on; i++) printf("%02x", obuf[i]);
@@ -67,7 +69,7 @@ static void pull_feed(int mode, long k)
 
 int main(void)
 {
-	static char line[1 << 22];
+	static char line[1 << 24];
 	setvbuf(stdout, NULL, _IOFBF, 1 << 20);
 	while (fgets(line, sizeof(line), stdin)) {
 		char *p = line;
